@@ -15,6 +15,7 @@ package main
 //	i.provider.Release(v)                                               -> .release v
 //	if !waiter.Wait(ctx) { return nil }                                 -> .waitOrReturn
 //	if !i.discardOverflow || !waiter.IsSlowDown(ctx) { A } [else { B }] -> .ifFire A [.orElse B] .endIf
+//	if i.discardOverflow && waiter.IsSlowDown(ctx) { A } [else { B }]   -> .ifFire [B] .orElse A .endIf
 //	i.metrics.N.Add(k)                                                  -> .metricAdd N k
 //	i.gun.Shoot(v)                                                      -> .shoot v
 //	i.aggregator.Report(netsample.DiscardedShootSample())               -> .reportDiscard
@@ -156,6 +157,22 @@ func (x *ilx) body(stmts []ast.Stmt, nested bool) []string {
 			cond := x.src(v.Cond)
 			if cond == "!waiter.Wait(ctx)" && v.Else == nil && x.isReturnOf(v.Body, func(r string) bool { return r == "nil" }) {
 				out = append(out, ".waitOrReturn")
+				continue
+			}
+			if cond == x.recv+".discardOverflow && waiter.IsSlowDown(ctx)" && !nested {
+				// the negated form: `if discard { A } [else { B }]`  ==  `if fire { B } else { A }`
+				out = append(out, ".ifFire")
+				if v.Else != nil {
+					eb, isBlock := v.Else.(*ast.BlockStmt)
+					if !isBlock {
+						other(v.Else)
+					} else {
+						out = append(out, x.body(eb.List, true)...)
+					}
+				}
+				out = append(out, ".orElse")
+				out = append(out, x.body(v.Body.List, true)...)
+				out = append(out, ".endIf")
 				continue
 			}
 			if cond == "!"+x.recv+".discardOverflow || !waiter.IsSlowDown(ctx)" && !nested {
@@ -384,6 +401,49 @@ func instloopExtra(t *tr) string {
 		}
 	} else {
 		t.errs = append(t.errs, "method (*Waiter).IsFinished not found")
+	}
+
+	// ---- coreutil: (*Waiter).Wait draws exactly one token and fails without one
+	if fd := waiterFindMethod(cu, "Waiter", "Wait"); fd != nil && len(fd.Recv.List[0].Names) == 1 {
+		recv := fd.Recv.List[0].Names[0].Name
+		calls := 0
+		ast.Inspect(fd.Body, func(n ast.Node) bool {
+			if c, ok := n.(*ast.CallExpr); ok && cx.src(c.Fun) == recv+".sched.Next" {
+				calls++
+			}
+			return true
+		})
+		failsWithout := false
+		inLoop := false
+		ast.Inspect(fd.Body, func(n ast.Node) bool {
+			switch n.(type) {
+			case *ast.ForStmt, *ast.RangeStmt:
+				inLoop = true
+			}
+			return true
+		})
+		for k, st := range fd.Body.List {
+			as, ok := st.(*ast.AssignStmt)
+			if !ok || len(as.Lhs) != 2 || len(as.Rhs) != 1 || cx.src(as.Rhs[0]) != recv+".sched.Next()" || k+1 >= len(fd.Body.List) {
+				continue
+			}
+			okName := cx.src(as.Lhs[1])
+			if ifs, isIf := fd.Body.List[k+1].(*ast.IfStmt); isIf && ifs.Init == nil && ifs.Else == nil && cx.src(ifs.Cond) == "!"+okName && len(ifs.Body.List) > 0 {
+				if r, isRet := ifs.Body.List[len(ifs.Body.List)-1].(*ast.ReturnStmt); isRet && len(r.Results) == 1 && cx.src(r.Results[0]) == "false" {
+					failsWithout = true
+				}
+			}
+		}
+		b.WriteString("/-- regenerated from `core/coreutil/waiter.go` method `(*Waiter).Wait`: number of `sched.Next()` call sites (none inside a loop: " + strconv.FormatBool(!inLoop) + ") -/\n")
+		n := calls
+		if inLoop {
+			n = 99
+		}
+		b.WriteString("def waitNextCalls : Nat := " + strconv.Itoa(n) + "\n\n")
+		b.WriteString("/-- regenerated from `(*Waiter).Wait`: `next, ok := w.sched.Next()` is a top-level statement directly followed by `if !ok { …; return false }` -/\n")
+		b.WriteString("def waitFailsWithoutToken : Bool := " + strconv.FormatBool(failsWithout) + "\n\n")
+	} else {
+		t.errs = append(t.errs, "method (*Waiter).Wait not found")
 	}
 
 	// ---- provider: AmmoQueue
